@@ -551,6 +551,8 @@ def gen_edits(rng, case, n):
             edits.append([k, rng.choice(rids), rng.choice(mids), rng.choice([-2.0, -1.0, 0.5, 1.0, 3.0])])
         elif k in ("ko_rxn", "objective", "remove_rxn", "imul"):
             edits.append([k, rng.choice(rids)] + ([rng.choice([2.0, -1.0, 0.5])] if k == "imul" else []))
+            if k == "objective" and rng.random() < 0.4:
+                edits[-1] = ["objective_mixed", rng.choice(rids), rng.choice(rids)]
         elif k == "ko_gene":
             edits.append([k, rng.choice(net["genes"] or ["g0"])])
         elif k == "direction":
@@ -598,6 +600,12 @@ def apply_edit(m, e, other=None):
         m.genes.get_by_id(e[1]).knock_out()
     elif k == "objective":
         m.objective = m.reactions.get_by_id(e[1])
+    elif k == "objective_mixed":
+        # an objective expression that mixes a variable of this model with one of the OTHER model (documented: foreign
+        # variables are cloned onto this model); may raise, must not take anything away from the other model
+        r_own = m.reactions.get_by_id(e[1])
+        r_for = other.reactions.get_by_id(e[2]) if (other is not None and e[2] in other.reactions) else r_own
+        m.objective = r_own.flux_expression + 0.5 * r_for.flux_expression
     elif k == "direction":
         m.objective_direction = e[1]
     elif k == "add_rxn":
@@ -688,6 +696,10 @@ def run_frame_case(case):
         except Exception as ex:  # noqa  (an edit may legitimately fail: missing id, infeasible problem ...)
             stats["raised:" + type(ex).__name__] = stats.get("raised:" + type(ex).__name__, 0) + 1
         d = obs_diff(base, observe(other))
+        strays = [v.name for v in other.variables if v.problem is not other.solver] + \
+                 [c_.name for c_ in other.constraints if c_.problem is not other.solver]
+        if strays:
+            d = list(d) + ["solver objects of the untouched model now belong to another problem: %s" % strays[:4]]
         if d:
             fails.append({"step": step, "edit": e, "diff": d[:8]})
             break
